@@ -28,6 +28,7 @@ type apiPools struct {
 	headers        []namedBytes // bodies for update-header (valid and not)
 	cashLts        []namedBytes // bodies for add-cash-letter
 	clIDs          []string
+	bigX9          [][]byte // one valid file of more than 64 KiB: EBCDIC and ASCII, length-prefixed
 	mistypeDocs    [][]byte // one forward and one return document, sources of the mistyped-member bodies
 	twinDocs       [3][]byte // two files that are equal but for the CONTENT of their images (base64 text of equal length), IDs "twin-p" / "twin-q"
 }
@@ -89,6 +90,40 @@ func buildPools(r rng, n int) *apiPools {
 		}
 		if a, err, pn := realWrite(f, encCfg{LP: true, EBCDIC: false}); err == nil && pn == nil {
 			p.x9A = append(p.x9A, a)
+		}
+		if k == 0 {
+			// the same file with two image views of 40,000 bytes: an upload of more than 64 KiB (a multipart form of that size
+			// is spooled to disk by net/http), every record of it still far below the reader's line limit
+			bigF := deepCopyFile(f)
+			grown := 0
+			grow := func(d *icl.ImageViewData) {
+				if grown < 2 {
+					d.ImageData = bytes.Repeat([]byte{'#'}, 40000+grown) // ('#' is not a base64 character: the image stays as it is)
+					d.LengthImageData = fmt.Sprintf("%07d", len(d.ImageData))
+					grown++
+				}
+			}
+			for ci := range bigF.CashLetters {
+				for _, b := range bigF.CashLetters[ci].Bundles {
+					for _, cd := range b.Checks {
+						for j := range cd.ImageViewData {
+							grow(&cd.ImageViewData[j])
+						}
+					}
+					for _, rd := range b.Returns {
+						for j := range rd.ImageViewData {
+							grow(&rd.ImageViewData[j])
+						}
+					}
+				}
+			}
+			if grown == 2 {
+				e, err1, pn1 := realWrite(bigF, encCfg{LP: true, EBCDIC: true})
+				a, err2, pn2 := realWrite(bigF, encCfg{LP: true, EBCDIC: false})
+				if err1 == nil && err2 == nil && pn1 == nil && pn2 == nil {
+					p.bigX9 = [][]byte{e, a}
+				}
+			}
 		}
 		// the same file with control records that do not match its content (an upload is stored as read:
 		// nothing recomputes them until somebody builds the file)
@@ -935,7 +970,7 @@ func runAPI(cfg *config, prop string) *Report {
 				directed = append(directed, directedHist{frb, reqs})
 			}
 		}
-		var emptied []directedHist
+		var emptied, bigUpload []directedHist
 		// a file emptied one cash letter at a time, reads after each removal, then removals from the EMPTY file (the ID
 		// just removed, an ID never known), reads, a cash letter added again, reads
 		for k, doc := range pools.jsonDocs {
@@ -966,6 +1001,13 @@ func runAPI(cfg *config, prop string) *Report {
 				reqs = append(reqs, &apiReq{Kind: "add", ID: id, Body: cb.b, Src: "clean"}, &apiReq{Kind: "get", ID: id}, &apiReq{Kind: "list"})
 			}
 			emptied = append(emptied, directedHist{false, reqs})
+		}
+		// an upload of more than 64 KiB through the multipart form of v2 (both character sets), then reads of what was stored
+		if len(pools.bigX9) == 2 {
+			reqs := []*apiReq{{Kind: "c2", Body: pools.bigX9[0], Multipart: "file:application/octet-stream", Src: "clean"}, {Kind: "get", ID: "@last"}, {Kind: "cont", ID: "@last"},
+				{Kind: "c2", Body: pools.bigX9[1], Multipart: "file:text/plain", Src: "clean"}, {Kind: "get", ID: "@last"}, {Kind: "val", ID: "@last"}, {Kind: "list"}}
+			bigUpload = append(bigUpload, directedHist{false, reqs})
+			rep.count(fmt.Sprintf("directed:big-multipart-upload:%dKiB", len(pools.bigX9[0])>>10))
 		}
 		// a return file with zoned dates created through v2 WITHOUT being JSON-encoded in the answer, then only read
 		if pools.zonedReturnDoc != nil {
@@ -1035,8 +1077,9 @@ func runAPI(cfg *config, prop string) *Report {
 		if len(emptied) > 0 {
 			directed = append([]directedHist{emptied[0]}, append(directed, emptied[1:]...)...)
 		}
-		if cfg.tier != "thorough" && len(directed) > 14 {
-			directed = directed[:14]
+		directed = append(bigUpload, directed...)
+		if cfg.tier != "thorough" && len(directed) > 15 {
+			directed = directed[:15]
 		}
 		nHist += len(directed)
 	}
@@ -1113,6 +1156,9 @@ func runAPI(cfg *config, prop string) *Report {
 			rep.CorrOps++
 			rep.count("kind:" + s.q.Kind)
 			rep.count(fmt.Sprintf("status:%d", s.r.Status))
+			if len(s.q.Body) > 65536 {
+				rep.count(fmt.Sprintf("upload-above-64KiB:%s:%d", s.q.Kind, s.r.Status))
+			}
 			if s.q.Note != "" {
 				rep.count(s.q.Note)
 			}
